@@ -44,6 +44,7 @@ enum CacheMessage {
 
     Clear,
     AddAsset(AssetReloadInfos),
+    AddOwnedAsset(AssetReloadInfos),
     RemoveAsset(OwnedKey),
 }
 unsafe impl Send for CacheMessage where crate::cache::AssetMap: Sync {}
@@ -190,6 +191,11 @@ impl HotReloader {
         let _ = self.sender.send(CacheMessage::AddAsset(infos));
     }
 
+    pub(crate) fn add_owned_asset(&self, id: SharedString, deps: Dependencies, typ: Type) {
+        let infos = AssetReloadInfos::from_type(id, deps, typ);
+        let _ = self.sender.send(CacheMessage::AddOwnedAsset(infos));
+    }
+
     pub(crate) fn remove_asset(&self, id: SharedString, type_id: std::any::TypeId) {
         let key = OwnedKey::new_with(id, type_id);
         let _ = self.sender.send(CacheMessage::RemoveAsset(key));
@@ -260,6 +266,7 @@ fn hot_reloading_thread(
                 }
                 Ok(CacheMessage::Clear) => cache.clear_local_cache(),
                 Ok(CacheMessage::AddAsset(infos)) => cache.add_asset(infos),
+                Ok(CacheMessage::AddOwnedAsset(infos)) => cache.add_owned_asset(infos),
                 Ok(CacheMessage::RemoveAsset(key)) => cache.remove_asset(key),
                 Err(channel::TryRecvError::Empty) => break,
                 // The cache was dropped, we can stop now
